@@ -4,7 +4,7 @@
 //verif:assume delete / rename universe: repositories r and r2 (r2's name extends r's); in r up to two bundles (one with two index files, one empty with none) each present or absent, up to two labels; both store behaviours for deleting a missing key (error as GCS, nil as the local file system)
 //verif:cover VerifC09CreateRace second-creator-ran-between
 //verif:cover VerifC09DeleteRepo empty-bundle labels-removed
-//verif:cover VerifC09Rename bundles-moved labels-moved
+//verif:cover VerifC09Rename bundles-moved labels-moved checksummed-store write-fault
 //verif:cover VerifC09DeleteEntries list-rewritten list-untouched
 package core
 
@@ -150,17 +150,26 @@ func VerifC09Rename() {
 	vBudget(200000000)
 	vUnwind(20000)
 	f := vRepoUniverse(false)
-	stores := vCtxStoresAll(f.meta, f.vmeta, newVStore("blob"))
+	withCRC := vChoose("storeWithCRC", 2) == 1 // metadata stores with or without checksummed writes (GCS has them)
+	if withCRC {
+		vCover("checksummed-store")
+	}
+	stores := vCtxStoresKind(f.meta, f.vmeta, newVStore("blob"), withCRC)
 	beforeM, beforeV := vSnapshot(f.meta), vSnapshot(f.vmeta)
-	fault := vChoose("fault", 2) == 1
-	if fault {
-		// the k-th read of a file list of r fails
+	fault := vChoose("fault", 3) // 0: none, 1: the k-th read of a file list of r fails, 2: the k-th write of a file list of the new repository fails
+	if fault > 0 {
 		k := vChoose("faultAt", 2)
 		n := 0
 		f.meta.fail = func(op, key string) error {
-			if op == "get" && len(key) > len("bundles/r/") && key[:len("bundles/r/")] == "bundles/r/" && key[len(key)-len("bundle.yaml"):] != "bundle.yaml" {
+			isList := func(prefix string) bool {
+				return len(key) > len(prefix) && key[:len(prefix)] == prefix && key[len(key)-len("bundle.yaml"):] != "bundle.yaml"
+			}
+			if (fault == 1 && op == "get" && isList("bundles/r/")) || (fault == 2 && op == "put" && isList("bundles/n/")) {
 				n++
 				if n == k+1 {
+					if fault == 2 {
+						vCover("write-fault")
+					}
 					return errVFault
 				}
 			}
@@ -175,10 +184,15 @@ func VerifC09Rename() {
 	}
 	f.meta.fail = nil
 	if err != nil {
-		vAssert(fault, "rename-succeeds-without-faults")
+		vAssert(fault > 0, "rename-succeeds-without-faults")
 		vAssertSame(beforeM, f.meta, []string{"repos/r/", "bundles/r/", "repos/r2/", "bundles/r2/"}, "failed-rename-keeps-the-original-repository")
 		vAssertSame(beforeV, f.vmeta, []string{"labels/r/", "labels/r2/"}, "failed-rename-keeps-the-original-labels")
 		return
+	}
+	for _, o := range f.meta.ops {
+		if o.Op == "put-failed" {
+			vAssert(false, "rename-hit-by-a-failed-write-reports-failure")
+		}
 	}
 	vAssert(vKeysUnder(f.meta, "repos/r/") == 0 && vKeysUnder(f.meta, "bundles/r/") == 0 && vKeysUnder(f.vmeta, "labels/r/") == 0, "old-repository-removed")
 	vAssertSame(beforeM, f.meta, []string{"repos/r2/", "bundles/r2/"}, "other-repository-metadata-untouched")
